@@ -240,6 +240,11 @@ pub fn initial_states() -> Vec<RVal> {
         RVal::u(0),
         RVal::i(-129),
         RVal::obj(vec![("a", RVal::Null), ("b", RVal::obj(vec![("c", RVal::Null), ("d", RVal::arr(vec![RVal::Null]))]))]),
+        // larger seeds (above the expansion cap: their successors are judged, not expanded): builders
+        // and name lookups behave differently above a few dozen members
+        RVal::Obj((0..40).map(|i| (format!("k{:02}", i), RVal::u(i))).collect()),
+        RVal::Arr((0..40).map(|i| if i % 3 == 0 { RVal::s("dup") } else { RVal::u(i % 5) }).collect()),
+        RVal::obj(vec![("a", RVal::Obj((0..40).map(|i| (format!("k{:02}", i), RVal::u(i))).collect())), ("b", RVal::Null)]),
     ]);
     v
 }
